@@ -1,4 +1,6 @@
 """C19 — no peer-controlled input makes the library panic: arithmetic and explicit-panic discipline."""
+import os
+
 from ..rules import *  # noqa
 
 EXPLANATION = (
@@ -30,21 +32,19 @@ FILES = (
 )
 WIRE = r"core::str::parse$|FromStr>::from_str$|::from_be_bytes$|::from_le_bytes$|::from_str_radix$|char::methods::to_digit$|to_digit$"
 WIRE_FIELDS = r"HttpRange\.(start|length)$|decoder::Kind::Length\.0$|decoder::Kind::Chunked\.1$|ByteRangeSpec::(FromTo|From|Last)\.\d$|InnerField\.length$"
-# tainted parameters (confirmed by reading the callers): function suffix -> argument names
+# tainted parameters (confirmed by reading the callers): function suffix -> parameter TYPE (names are not used)
 WIRE_PARAMS = {
-    "ChunkedState::read_size": {"size"}, "ChunkedState::read_body": {"rem"}, "ChunkedState::read_size_lf": {"size"},
-    "InnerField::read_len": {"size"},
+    "ChunkedState::read_size": r"^(&mut )?u64$", "ChunkedState::read_body": r"^(&mut )?u64$", "ChunkedState::read_size_lf": r"^(&mut )?u64$",
+    "InnerField::read_len": r"^(&mut )?u64$",
 }
 
 # reasoned exceptions, exact keys (function | op | canonical operands)
 TABLE = {
-    "ChunkedState::read_size|Add|size+(φ(rem) as u64)": "n = size*16 was produced by checked_mul(16) on the dominating edge, so n <= MAX-15 and rem < 16: n + rem cannot overflow",
+    "ChunkedState::read_size|Add|<arg:&mut u64>+<var:u8>": "n = size*16 was produced by checked_mul(16) on the dominating edge, so n <= MAX-15 and the digit value is < 16: the sum cannot overflow",
     "HeaderIndex::record|Sub|ptr-ptr": "pointer difference of a sub-slice that httparse returned from the same buffer (name/value lie inside `bytes`)",
-    "NamedFile::etag|*|mtime": "file modification time from the local file system, not peer input",
-    "NamedFile::into_response|Add|φ(offset)+φ(length)": "http_range::HttpRange::parse only returns ranges with start + length <= size (the file length passed to it): contract of the external crate",
-    "encode_headers::{closure#0}|Sub|_.^_ref__remaining": "on the `len > remaining` edge `remaining` is recomputed as capacity - len after dst.reserve(len * 2), so remaining >= 2*len; on the other edge len <= remaining",
-    "Path::skip|Add|self.skip+n": "u16 offsets into the request path; the `http` crate limits a URI to 65534 bytes and skip+n never exceeds the path length",
-    "Path::add|Add|self.skip+offset": "same u16 bound: segment offsets are positions inside the remaining path",
+    "NamedFile::etag|*|*": "file modification time from the local file system, not peer input",
+    "NamedFile::into_response|Add|<var:u64>+<var:u64>": "http_range::HttpRange::parse only returns ranges with start + length <= size (the file length passed to it): contract of the external crate",
+    "encode_headers::{closure#0}|Sub|<arg:&mut {closure}>.^+(….0 AddWithOverflow 4).0": "`remaining - len` in the unsafe header writer: on the `len > remaining` edge `remaining` is recomputed as capacity - len after dst.reserve(len * 2), so remaining >= 2*len; on the other edge len <= remaining was just tested (the linear-accounting rule C19-b checks the writer's cursor arithmetic separately)",
 }
 
 
@@ -54,10 +54,9 @@ def tainted(b, e):
     for x in walk(e):
         if x[0] == "place" and any(isinstance(p, str) and rx(WIRE_FIELDS).search(p) for p in x[2]):
             return True
-    fn = "::".join(b.npath.split("::")[-2:])
-    for suffix, names in WIRE_PARAMS.items():
+    for suffix, ty_pat in WIRE_PARAMS.items():
         if b.npath.endswith(suffix):
-            if any(r[0] == "arg" and r[2] in names for r in e_roots(e)):
+            if root_is(e, args_of_type(b, ty_pat)):
                 return True
     return False
 
@@ -182,7 +181,7 @@ def run(ck, prog, tier, load):
                 why = sub_justified(b, bb, ops[0], ops[1])
                 key = "%s|Sub|%s-%s" % (fn, canon(strip(ops[0]), 3), canon(strip(ops[1]), 3))
                 if why is None:
-                    why = table_reason(fn, "Sub", ops)
+                    why = table_reason(b, fn, "Sub", ops)
                 if why is None and fn.endswith("NamedFile::into_response") and strip(ops[1])[:3] == ("const", None, 1):
                     from .c16 import filter_nonzero
                     if filter_nonzero(prog, b):
@@ -195,7 +194,7 @@ def run(ck, prog, tier, load):
                     continue
                 n_add += 1
                 key = "%s|%s|%s" % (fn, op, "+".join(canon(strip(o), 3) for o in ops))
-                why = table_reason(fn, op, ops)
+                why = table_reason(b, fn, op, ops)
                 if why is None and op in ("Shl", "Shr"):
                     # shift amounts are constants / masked
                     amt = strip(ops[1]) if len(ops) > 1 else None
@@ -310,23 +309,31 @@ def run(ck, prog, tier, load):
         ok = bool(adv) and sorted(set(adv)) == sorted(set(wr)) and len(adv) == 4
         ck.ob("C19-b.pointer-advance", "encode_headers", ok, c, None, "raw pointer advances %s equal the lengths written %s" % (adv, sorted(set(wr))))
         # len = k_len + v_len + 4 ; pos += len ; remaining -= len
-        pos_w = [(bb, s) for bb, i, s in c.assigns() if any(isinstance(x, str) and rx(r"^\.\^(_ref__)?pos$").search(x) for x in s["p"][1:])]
-        rem_w = [(bb, s) for bb, i, s in c.assigns() if any(isinstance(x, str) and rx(r"^\.\^(_ref__)?remaining$").search(x) for x in s["p"][1:])]
+        # the two running counters: usize variables of encode_headers captured by the closure and updated per header
+        def ctr_of(x):
+            if not (isinstance(x, str) and x.startswith(".^")):
+                return None
+            up = prog.upvar(c, x)
+            if not up or up[0] is not eh:
+                return None
+            ls = [r[1] for r in e_roots(up[1]) if r[0] in ("var", "phi") and eh.lty(r[1]) == "usize"]
+            return ls[0] if ls else None
+        ctr_w = [(bb, s, [ctr_of(x) for x in s["p"][1:] if ctr_of(x) is not None][0]) for bb, i, s in c.assigns() if any(ctr_of(x) is not None for x in s["p"][1:])]
         def amount(s):
             e = c.rv_expr(s["rv"], 6)
             top = e[1] if e[0] == "place" else e
             return top
-        len_ok = True
         amts = []
-        for bb, s in pos_w + rem_w:
+        for bb, s, l in ctr_w:
             e = amount(s)
             if e[0] == "const":
                 continue
-            if e[0] == "bin" and any(isinstance(p_, str) and rx(r"^\.\^(_ref__)?(pos|remaining)$").search(p_) for x in walk(e[2]) if x[0] == "place" for p_ in x[2]):
-                amts.append((bb, e[1], canon(strip(e[3]), 5)))
+            if e[0] == "bin" and any(ctr_of(p_) == l for x in walk(e[2]) if x[0] == "place" for p_ in x[2]):
+                amts.append((bb, e[1], canon(strip(e[3]), 5), l))
+        REM = set(x[3] for x in amts if x[1] in ("Sub", "SubWithOverflow"))
         per_iter = [x for x in amts if x[1] in ("Add", "AddWithOverflow", "Sub", "SubWithOverflow")]
-        same_len = len({x[2] for x in per_iter}) == 1 and len(per_iter) >= 2
-        ck.ob("C19-b.counters-agree", "encode_headers", same_len, c, per_iter[0][0] if per_iter else None, "`pos += len` and `remaining -= len` use the same `len` (= key + value + 4): %s" % sorted({x[2] for x in per_iter}))
+        same_len = len({x[2] for x in per_iter}) == 1 and len(per_iter) >= 2 and any(x[1].startswith("Add") for x in per_iter) and any(x[1].startswith("Sub") for x in per_iter)
+        ck.ob("C19-b.counters-agree", "encode_headers", same_len, c, per_iter[0][0] if per_iter else None, "the cursor counter (`+= len`) and the remaining-capacity counter (`-= len`) use the same `len` (= key + value + 4): %s" % sorted({x[2] for x in per_iter}))
         # len is the sum of what is written: k_len + v_len + 4 where 4 = 2 (": ") + 2 ("\\r\\n")
         consts = sorted(x[2] for e in wlens for x in [strip(e)] if x[0] == "const")
         ok = same_len and per_iter and ("4" in per_iter[0][2]) and consts.count(2) >= 2
@@ -337,7 +344,7 @@ def run(ck, prog, tier, load):
         ok = bool(rs) and all(any(c.dominates(r_, d) or d in c.reach([r_]) for d in rederive) and c.must_pass([r_], [x for x, t in c.calls(r"encoder::write_data$|encoder::write_camel_case$")], rederive)[0] for r_ in rs)
         ck.ob("C19-b.pointer-rederived-after-reserve", "encode_headers", ok, c, rs[0] if rs else None, "after dst.reserve(..) the raw pointer is taken again from chunk_mut() before the next write")
         # the reserve is taken when len > remaining
-        ok = bool(rs) and all(guarded_by(c, r_, cmp_pred("Le", lambda e: True, lambda e: any(isinstance(p, str) and rx(r"remaining$").search(p) for x in walk(e) if x[0] == "place" for p in x[2]), False))[0] for r_ in rs)
+        ok = bool(rs) and all(guarded_by(c, r_, cmp_pred("Le", lambda e: True, lambda e: any(ctr_of(p) in REM for x in walk(e) if x[0] == "place" for p in x[2] if ctr_of(p) is not None), False))[0] for r_ in rs)
         ck.ob("C19-b.reserve-when-short", "encode_headers", ok, c, rs[0] if rs else None, "capacity is reserved exactly on the edge len > remaining")
 
 
@@ -413,23 +420,23 @@ def enough_related(c, lab, X, recv):
     return any(any(same(y, X) for y in walk(s_) if isinstance(y, tuple)) for s_ in sides)
 
 
-def table_reason(fn, op, ops):
+def table_reason(b, fn, op, ops):
+    """exact-key lookup: function suffix | operator | operand shapes (locals by kind and type, not by name)"""
+    key_ops = "+".join(shape(b, strip(x), 3) for x in ops)
     for k, why in TABLE.items():
         f, o, pat = k.split("|")
-        if not fn.endswith(f) and f not in fn:
+        if f not in fn:
             continue
         if o != "*" and o != op:
             continue
-        txt = "+".join(canon(strip(x), 3) for x in ops)
         if pat == "ptr-ptr":
             if all(e_calls(x, r"as_ptr$") for x in ops):
                 return why
             continue
-        if pat == "mtime":
+        if pat == "*" or pat == key_ops:
             return why
-        a = pat.split("+")
-        if all(any(part.replace("offset", "") in t_ or part in t_ for t_ in [txt]) for part in a[:1]):
-            return why
+    if os.environ.get("AVLINT_C19_SHAPES"):
+        print("C19 shape:", fn, op, key_ops)
     return None
 
 
